@@ -150,3 +150,28 @@ Theorem C13_gen_loss_configure_sequence :
   before "self.set_func_gradient_prob_dists_from_standard_qt?" "self._set_weights_by_mode" gen_loss_configure_calls = true.
 Proof. repeat split; reflexivity. Qed.
 Print Assumptions C13_gen_loss_configure_sequence.
+
+(* ================= G5: copies share no mutable member ================= *)
+Definition deep (m : string) (l : list (string * bool)) : bool := existsb (fun p => String.eqb (fst p) m && snd p) l.
+Definition passed_through (l : list (string * bool)) : list string := map fst (filter (fun p => negb (snd p)) l).
+(* "copies are independent of their originals", on the regenerated _copy methods: every member that holds mutable data (the
+   arrays; for an MProcess also random_seed_or_generator, which may be a np.random.Generator instance) is handed to the new
+   object as a deep copy; only immutable members (shape: tuple, mode_sampling: bool) may be passed through; copy() builds the
+   new object from the values _copy() returns *)
+Theorem C13_gen_copy_shares_no_mutable_member :
+  deep "vec" gen_copy_State = true /\ passed_through gen_copy_State = [] /\
+  deep "hs" gen_copy_Gate = true /\ passed_through gen_copy_Gate = [] /\
+  deep "vecs" gen_copy_Povm = true /\ passed_through gen_copy_Povm = [] /\
+  deep "hss" gen_copy_MProcess = true /\ deep "random_seed_or_generator" gen_copy_MProcess = true /\
+  forallb (fun m => String.eqb m "shape" || String.eqb m "mode_sampling") (passed_through gen_copy_MProcess) = true /\
+  gen_copy_uses_private_copy = true.
+Proof. repeat split; reflexivity. Qed.
+Print Assumptions C13_gen_copy_shares_no_mutable_member.
+
+(* ================= G6: reading is not an operation ================= *)
+(* no @property getter of the object, container, tomography, loss and algorithm classes assigns to (a part of) self, deletes an
+   attribute or calls a setter / builder: a read cannot change its object (the lazily building getters of CompositeSystem
+   are the subject of G1) *)
+Theorem C13_gen_getters_are_pure_reads : gen_impure_getters = [] /\ Nat.leb 60 gen_getters_scanned = true.
+Proof. split; reflexivity. Qed.
+Print Assumptions C13_gen_getters_are_pure_reads.
